@@ -46,6 +46,8 @@ BUILD_FLAVOURS = {
     "hooks": ("gcc", "-std=c11 -O1 -g -D%s -Wall -Wno-parentheses -Wno-switch" % GUARD, ""),
     "asan": ("clang", "-std=c11 -O1 -g -D%s -fsanitize=address,undefined -fno-sanitize-recover=undefined -fno-omit-frame-pointer" % GUARD,
              "-fsanitize=address,undefined"),
+    # line coverage of the compiler itself (C10 measures which error()/fatal() sites its catalogue reaches)
+    "gcov": ("gcc", "-std=c11 -O0 -g --coverage", "--coverage"),
 }
 
 
